@@ -321,7 +321,7 @@ def main():
     tasks.append(("task_extractor", (0,)))
     from . import c09
 
-    f4, f4total = c09.fork4_tasks(budget_quick=350, budget_thorough=3000, seed_offset=19)
+    f4, f4total = c09.fork4_tasks(budget_quick=160, budget_thorough=2500, seed_offset=19, limit_quick=5.0, limit_thorough=20.0)
     for t in f4:
         tasks.append(("task_ctx4", t))
     for r in C.run_named_tasks("harness.c19", tasks):
